@@ -84,15 +84,23 @@ def parseVCap (s : String) : Option VCap :=
           ← (if rtx = "~" then some none else rtx.toNat?.map some)⟩
   | _ => none
 
-/-- `m,legacy,mux,sctp|acap+…|vcap+…` -/
+/-- `pt,version,maxBitrate,rate,maxBuffer,maxDatagram,ec` -/
+def parseT38 (s : String) : Option T38Cap :=
+  match s.splitOn "," with
+  | [pt, ve, br, rate, mb, md, ec] => do
+    some ⟨← pt.toNat?, ← ve.toNat?, ← br.toNat?, ← dec rate, ← mb.toNat?, ← md.toNat?, ← dec ec⟩
+  | _ => none
+
+/-- `m,legacy,mux,sctp|acap+…|vcap+…|t38+…` -/
 def parseCfg (s : String) : Option Cfg :=
   match s.splitOn "|" with
-  | [base, ac, vc] =>
+  | [base, ac, vc, ic] =>
     match base.splitOn "," with
     | [m, l, x, port] => do
       let mode ← match m with | "w" => some Mode.webrtc | "s" => some Mode.srtp | "r" => some Mode.rtp | _ => none
       some { mode, legacySip := l = "1", muxRequire := x = "1", sctpPort := ← port.toNat?,
-             audio := ← (splitList "+" ac).mapM parseACap, video := ← (splitList "+" vc).mapM parseVCap }
+             audio := ← (splitList "+" ac).mapM parseACap, video := ← (splitList "+" vc).mapM parseVCap,
+             image := ← (splitList "+" ic).mapM parseT38 }
     | _ => none
   | _ => none
 
@@ -146,7 +154,7 @@ def handle (stream : String) (args : List String) : String :=
     | some o, some a =>
       let secs := (o.media.zip a.sections)
       let bit (f : Media → Media → Bool) := b01 (secs.all (fun p => f p.1 p.2))
-      s!"{b01 (validAnswer o a)} n{b01 (o.media.length = a.sections.length)} al{bit secAligned} pt{bit secPtsOk} rx{bit secRtxOk} ex{bit secExtOk} mx{bit secMuxOk} di{bit secDirOk} su{bit secSetupOk} bu{b01 (bundleOk o.session.attrs a)}"
+      s!"{b01 (validAnswer o a)} n{b01 (o.media.length = a.sections.length)} al{bit secAligned} pt{bit secPtsOk} rx{bit secRtxOk} ex{bit secExtOk} mx{bit secMuxOk} di{bit secDirOk} su{bit (secSetupOkS o.session.attrs)} bu{b01 (bundleOk o.session.attrs a)} cb{bit secBindOk}"
     | _, _ => "bad-args"
   | "prim", [op, text] =>
     -- the `str` primitives every model function is built from (text = `.` ++ coded string)
